@@ -29,11 +29,11 @@ PARTS = 8                     # the operation catalogue of one Quilt configurati
 # ---------------------------------------------------------------------------------------------
 # members and the reference concatenation, from plain data
 
-def member_data(k, axis):
+def member_data(k, axis, sizes=SIZES):
     """list of (bus label, inner labels, opposite labels, columns-of-cells) per member; cells distinct across members"""
     out = []
     for m in range(k):
-        n = SIZES[m]
+        n = sizes[m]
         inner = [f'{"xyz"[m]}{j}' for j in range(n)]
         if axis == 0:
             opp = ['p', 'q', 'r']
@@ -46,10 +46,10 @@ def member_data(k, axis):
     return out
 
 
-def member_frames(k, axis):
+def member_frames(k, axis, sizes=SIZES):
     import static_frame as sf
     frames = []
-    for label, inner, opp, cols in member_data(k, axis):
+    for label, inner, opp, cols in member_data(k, axis, sizes):
         if axis == 0:
             frames.append(sf.Frame.from_items(zip(opp, cols), index=inner, name=label))
         else:
@@ -57,10 +57,10 @@ def member_frames(k, axis):
     return frames
 
 
-def reference(k, axis, retain):
+def reference(k, axis, retain, sizes=SIZES):
     """R built without from_concat"""
     import static_frame as sf
-    data = member_data(k, axis)
+    data = member_data(k, axis, sizes)
     labels = [((lab, i) if retain else i) for lab, inner, _, _ in data for i in inner]
     ctor = sf.IndexHierarchy.from_labels if retain else sf.Index
     if axis == 0:
@@ -178,14 +178,15 @@ def _dec(key):
 # worlds
 
 class QWorld:
-    def __init__(self, tmp, k, axis, retain, mp_mode):
+    def __init__(self, tmp, k, axis, retain, mp_mode, sizes=SIZES):
         import static_frame as sf
         self.k, self.axis, self.retain, self.mp_mode = k, axis, retain, mp_mode
-        self.frames = member_frames(k, axis)
-        self.R = reference(k, axis, retain)
+        sizes = tuple(sizes)
+        self.frames = member_frames(k, axis, sizes)
+        self.R = reference(k, axis, retain, sizes)
         self.fp = None
         if mp_mode != 'memory':
-            self.fp = os.path.join(tmp, f'q_{k}_{axis}.zip')
+            self.fp = os.path.join(tmp, f'q_{k}_{axis}_{"".join(map(str, sizes))}.zip')
             if not os.path.exists(self.fp):
                 sf.Bus.from_frames(self.frames).to_zip_pickle(self.fp)
         self.mp = None if mp_mode in ('memory', 'store') else int(mp_mode)
@@ -298,8 +299,9 @@ def quilt_cases(tier):
                         continue
                     if tier == 'quick' and mp_mode == 'store' and k != 3:
                         continue
-                    for part in range(PARTS):
-                        yield dict(area='quilt', k=k, axis=axis, retain=retain, mp_mode=mp_mode, part=part)
+                    for sizes in ([list(SIZES)] if tier == 'quick' else [list(SIZES), [1, 1, 2], [3, 1, 2]]):
+                        for part in range(PARTS):
+                            yield dict(area='quilt', k=k, axis=axis, retain=retain, mp_mode=mp_mode, sizes=sizes, part=part)
 
 
 def _differs(a, b):
@@ -333,7 +335,7 @@ def _differs(a, b):
 
 
 def eval_quilt(rep, case, tmp, only=None):
-    w = QWorld(tmp, case['k'], case['axis'], case['retain'], case['mp_mode'])
+    w = QWorld(tmp, case['k'], case['axis'], case['retain'], case['mp_mode'], case.get('sizes', SIZES))
     tier = case.get('tier', 'quick')
     import static_frame as sf
     # the harness-built reference must itself be the concatenation the property names
@@ -369,7 +371,7 @@ def eval_quilt(rep, case, tmp, only=None):
                 rep.fail(f'{PID}:quilt:{area}:invalid-key-accepted', f'quilt {spec}: returned {str(got)[:200]} where the concatenated Frame raises {want[1]}', dict(case, op=spec))
             continue
         got = outcome(lambda: qfn(q))
-        rep.count(distinct_key=(case['k'], case['axis'], case['retain'], case['mp_mode'], repr(spec)), sample=dict(case, op=spec))
+        rep.count(distinct_key=(case['k'], case['axis'], case['retain'], case['mp_mode'], tuple(case.get('sizes', SIZES)), repr(spec)), sample=dict(case, op=spec))
         rp = dict(case, op=spec)
         cfg = f'k={case["k"]}, axis={case["axis"]}, retain_labels={case["retain"]}, bus={case["mp_mode"]}'
         if got[0] == 'declined':
@@ -597,7 +599,7 @@ RULE = ('quilt: k in 1..3 members (2,3,1 rows or columns) x axis {0,1} x retain_
         'in both orders, triples, duplicates, empty, all 2^n Boolean masks) x 6 opposite-axis keys, loc/[] label forms incl. HLoc, 14 iterators '
         'both axes, windows size 1..n+1 step 1-2, head/tail/to_frame/items/keys/get}; batch: 40 operations and all ordered pairs of them on k in 1..3 '
         'Frames (one NaN) from frames / Bus / zip store; to_frame / to_bus export.  Non-trivial: the reference evaluation succeeds')
-BOUND = 'members <= 3, quilt axis length <= 6, opposite axis length 3, Batch chains of depth <= 2; NotImplementedAxis refusals are counted as declined, not compared'
+BOUND = 'members <= 3 (sizes 2,3,1; thorough also 1,1,2 and 3,1,2), quilt axis length <= 6, opposite axis length 3, Batch chains of depth <= 2; NotImplementedAxis refusals are counted as declined, not compared'
 
 
 def _run(task, areas, name):
